@@ -3,6 +3,13 @@ From Coq Require Import List NArith ZArith Bool Lia.
 From NB Require Import Base.Res Base.Json Diff.DiffFormat Diff.Patch.
 Import ListNotations.
 
+(* `if snakes[0][2] == 0: snakes.pop(0)` *)
+Definition pop_empty_first (l : list (nat * nat * nat)) : list (nat * nat * nat) :=
+  match l with
+  | (_, _, 0) :: rest => rest
+  | _ => l
+  end.
+
 Section Lcs.
   Variable compare : json -> json -> bool.
 
@@ -78,11 +85,7 @@ Section Lcs.
   Definition bruteforce_compute_snakes (A B : list json) : res (list (nat * nat * nat)) :=
     do ab <- lcs_indices A B;
     let '(ai, bi) := ab in
-    let snakes := rev (snakes_of_indices [(0, 0, 0)] ai bi) in
-    match snakes with
-    | (_, _, 0) :: rest => Ok rest
-    | _ => Ok snakes
-    end.
+    Ok (pop_empty_first (rev (snakes_of_indices [(0, 0, 0)] ai bi))).
 End Lcs.
 
 (* lcs.diff_from_lcs *)
